@@ -609,11 +609,52 @@ def rule_v3(ck, prog, S):
                 if p_["name"] == e["decl"]["name"]:
                     return i
         return None
+    def row_param(f, expr):
+        # `<param>->event` (or `<param>[0].event`): the helper is handed one row of a group table
+        e = expr.strip_all_casts()
+        if e.k != "MemberExpr" or not (e.get("path") or e.src or "").endswith("event"):
+            return None
+        b = e.child(0)
+        while b is not None and b.k in ("ParenExpr", "ImplicitCastExpr", "CStyleCastExpr", "UnaryOperator", "ArraySubscriptExpr"):
+            b = b.child(0)
+        return param_index(f, b) if b is not None else None
+
+    def row_from_table(g, argn):
+        # the row handed over is a row of scpi_reg_group_details: named directly, or through a local pointer that is only
+        # ever assigned from that table (and stepped)
+        e = argn.strip_all_casts()
+        pth = e.get("path") or ""
+        if pth.lstrip("&").startswith("scpi_reg_group_details"):
+            return True
+        if e.k == "DeclRefExpr" and e["decl"]["kind"] == "local":
+            name, srcs = e["decl"]["name"], []
+            for n_ in g.nodes.values():
+                if n_.k == "DeclStmt":
+                    for dd in n_.get("decls", []):
+                        if dd["name"] == name and "init" in dd:
+                            srcs.append(g.nodes[dd["init"]])
+                elif n_.k == "BinaryOperator" and n_.get("op") == "=" and n_.child(0).strip_all_casts().src == name:
+                    srcs.append(n_.child(1))
+                elif n_.k in ("BinaryOperator", "CompoundAssignOperator") and n_.get("op") in ("+=", "-=") \
+                        and n_.child(0).strip_all_casts().src == name:
+                    pass
+            return bool(srcs) and all((x.strip_all_casts().get("path") or x.strip_all_casts().src or "").lstrip("&")
+                                      .startswith("scpi_reg_group_details") for x in srcs)
+        return False
     effective = []
+    rowsrc = {}
     for f in sorted(prog.functions.values(), key=lambda f: (f.relfile, f.line)):
         for call in leaf_sites(f):
             a = C.call_args(call)
             if len(a) != 3:
+                continue
+            rp = row_param(f, a[1])
+            if rp is not None and f.static:
+                for g, c in prog.callers(f.name):
+                    ca = C.call_args(c)
+                    chain = [(g, c), (f, call)]
+                    effective.append((g, None, chain))
+                    rowsrc[id(chain)] = rp < len(ca) and row_from_table(g, ca[rp])
                 continue
             pi = param_index(f, a[1])
             if pi is not None and f.static and f.name not in ("SCPI_RegSet", "SCPI_RegSetBits", "SCPI_RegClearBits"):
@@ -715,6 +756,8 @@ def rule_v3(ck, prog, S):
                 argp = a[1].strip_all_casts().get("path")
                 # the register cleared is the .event field of a row of the group table: directly, or through a local copy
                 src_ok = bool(argp) and argp.startswith("scpi_reg_group_details[") and argp.endswith(".event")
+                if rowsrc.get(id(chain)):
+                    src_ok = True   # the helper clears the .event field of the table row its caller hands it
                 for dn in lf.nodes.values():
                     if dn.k == "DeclStmt":
                         for dd in dn.get("decls", []):
